@@ -11,7 +11,7 @@ var fatalCodes = []int16{10, 29, 17, 45}
 
 // GenOpts bounds the generator.
 type GenOpts struct {
-	MaxScript int  // fault script length bound
+	MaxScript int // fault script length bound
 	MinMsgs   int
 	MaxMsgs   int
 	Ics       bool // always configure interceptors (C18a)
@@ -194,4 +194,6 @@ func Corpus() []*Scenario {
 }
 
 // Name helper for generated scenarios.
-func GenName(class string, seed int64, i int) string { return fmt.Sprintf("%s/seed%d/%d", class, seed, i) }
+func GenName(class string, seed int64, i int) string {
+	return fmt.Sprintf("%s/seed%d/%d", class, seed, i)
+}
